@@ -285,6 +285,105 @@ def cir_moments(ctx: Ctx, recs: List[Dict[str, Any]]) -> None:
                     ctx.violation("cir:exponential:atom", "the exponential branch does not put the mass p = (psi - 1)/(psi + 1) at zero", {**d, "p": p, "at_p/2": z0, "just_below_p": zlo, "just_above_p": zhi})
 
 
+def jump_moments(ctx: Ctx, recs: List[Dict[str, Any]]) -> None:
+    """One step of the Merton / Kou generators CONDITIONAL on the number of jumps must have the mean and variance of Jump.tla
+    (relative to the compensated drift of the step).  The generators get the jump count through Poisson.sample - whose RATE must
+    be lambda dt - Gauss-Hermite nodes as normals (the move is linear in them: three nodes integrate it and its square exactly)
+    and, for Kou, Gauss-Laguerre nodes as exponential sizes - scaled by the MEAN the generator's own Exponential object declares -
+    with the directions decided just below / just above the documented up-probability."""
+    import itertools
+    import torch.distributions.exponential as te
+    import torch.distributions.poisson as tp
+    import torch.distributions.uniform as tu
+    from pfhedge.stochastic import generate_kou_jump, generate_merton_jump
+    r3, r2 = math.sqrt(3.0), math.sqrt(2.0)
+    zn, zw = [-r3, 0.0, r3], [1 / 6, 2 / 3, 1 / 6]
+    yn, yw = [2 - r2, 2 + r2], [(2 + r2) / 4, (2 - r2) / 4]
+    dt, mu = 0.25, 0.125
+
+    def seq(x):          # a TLA+ function over 0..n is serialised as an object with the keys "0", "1", ...
+        return [x[str(i)] for i in range(len(x))] if isinstance(x, dict) else list(x)
+    for r in recs:
+        sd2, L, a1, a2, p = (frf(r[k]) for k in ("sd2", "L", "a1", "a2", "p"))
+        sigma, lam = math.sqrt(sd2 / dt), L / dt
+        model = r["model"]
+        base = {"model": model, "sigma": sigma, "dt": dt, "jump_per_year": lam, "mu": mu}
+        rates: List[float] = []
+
+        def counts(n):
+            def sample(self, shape=torch.Size()):
+                rates.append(float(torch.as_tensor(self.rate).flatten()[0]))
+                return torch.full(tuple(shape), float(n), dtype=DT)
+            return sample
+        if model == "merton":
+            js = math.sqrt(a2)
+            c = (mu - sigma ** 2 / 2 - lam * (math.exp(a1 + a2 / 2) - 1)) * dt
+            grid = list(itertools.product(range(3), range(3)))
+            Zj = torch.tensor([[zn[i]] for i, _ in grid], dtype=DT)
+            Zd = torch.tensor([[9.0, zn[j]] for _, j in grid], dtype=DT)
+            w = torch.tensor([zw[i] * zw[j] for i, j in grid], dtype=DT)
+            for n, want in enumerate(seq(r["cond"])):
+                detail = {**base, "jump_mean": a1, "jump_std": js, "jumps_in_the_step": n}
+                try:
+                    with patched(tp.Poisson, "sample", counts(n)):
+                        out = generate_merton_jump(len(grid), 2, init_state=(1.5,), mu=mu, sigma=sigma, jump_per_year=lam, jump_mean=a1, jump_std=js, dt=dt, dtype=DT,
+                                                   engine=scripted_engine([Zj, Zd]))
+                except Exception as ex:
+                    ctx.violation("jump:merton:raises", f"generate_merton_jump raised {type(ex).__name__} on supplied jump counts and quadrature nodes", {**detail, "error": repr(ex)[:200]})
+                    break
+                ctx.count(n=1)
+                x = (out[:, 1] / out[:, 0]).log() - c
+                m1 = float((w * x).sum())
+                v1 = float((w * x * x).sum()) - m1 * m1
+                em, ev = frf(want["mean"]), frf(want["var"])
+                d = {**detail, "observed_mean_minus_drift": m1, "expected": em, "observed_variance": v1, "expected_variance": ev}
+                if not math.isfinite(m1) or abs(m1 - em) > 1e-11 * (1 + abs(em)):
+                    ctx.violation("jump:merton:mean", "one step of generate_merton_jump given n jumps does not have the mean drift + n * jump_mean", d)
+                elif abs(v1 - ev) > 1e-11 * (1 + ev):
+                    ctx.violation("jump:merton:variance", "one step of generate_merton_jump given n jumps does not have the variance sigma^2 dt + n * jump_std^2", d)
+        else:
+            eu, ed = 1 / a1, 1 / a2
+            comp = (1 - p) * ed / (ed + 1) + p * eu / (eu - 1) - 1
+            c = (mu - sigma ** 2 / 2 - lam * comp) * dt
+            for n, per_j in enumerate(seq(r["condu"])):
+                for j, want in enumerate(seq(per_j)):
+                    # paths: one per (normal node, Laguerre node of each of the n jumps); the first j jumps go up
+                    combos = list(itertools.product(range(3), *[range(2)] * n))
+                    Zd = torch.tensor([[9.0, zn[cb[0]]] for cb in combos], dtype=DT)
+                    w = torch.tensor([zw[cb[0]] * math.prod(yw[q] for q in cb[1:]) for cb in combos], dtype=DT)
+                    nodes = torch.tensor([[yn[q] for q in cb[1:]] for cb in combos], dtype=DT).reshape(len(combos), 1, n)
+                    seen_rates: List[float] = []
+
+                    def sizes(self, shape=torch.Size()):
+                        seen_rates.append(float(torch.as_tensor(self.rate).flatten()[0]))
+                        return (nodes / self.rate).expand(*shape).clone()
+
+                    def directions(self, shape=torch.Size()):
+                        up = torch.tensor([p * (1 - 1e-9) if q < j else p + (1 - p) * 1e-9 for q in range(n)], dtype=DT)
+                        return up.expand(*shape).clone()
+                    detail = {**base, "jump_mean_up": a1, "jump_mean_down": a2, "jump_up_prob": p, "jumps_in_the_step": n, "upward": j}
+                    try:
+                        with patched(tp.Poisson, "sample", counts(n)), patched(te.Exponential, "sample", sizes), patched(tu.Uniform, "sample", directions):
+                            out = generate_kou_jump(len(combos), 2, init_state=(1.5,), mu=mu, sigma=sigma, jump_per_year=lam, jump_mean_up=a1, jump_mean_down=a2, jump_up_prob=p,
+                                                    dt=dt, dtype=DT, engine=scripted_engine([Zd]))
+                    except Exception as ex:
+                        ctx.violation("jump:kou:raises", f"generate_kou_jump raised {type(ex).__name__} on supplied jump counts, directions and quadrature nodes", {**detail, "error": repr(ex)[:200]})
+                        break
+                    ctx.count(n=1)
+                    x = (out[:, 1] / out[:, 0]).log() - c
+                    m1 = float((w * x).sum())
+                    v1 = float((w * x * x).sum()) - m1 * m1
+                    em, ev = frf(want["mean"]), frf(want["var"])
+                    d = {**detail, "observed_mean_minus_drift": m1, "expected": em, "observed_variance": v1, "expected_variance": ev, "exponential_rates_used": sorted(set(seen_rates))}
+                    if not math.isfinite(m1) or abs(m1 - em) > 1e-11 * (1 + abs(em)):
+                        ctx.violation("jump:kou:mean", "one step of generate_kou_jump given n jumps (j upward) does not have the mean drift + j * mean_up - (n - j) * mean_down", d)
+                    elif abs(v1 - ev) > 1e-11 * (1 + ev):
+                        ctx.violation("jump:kou:variance", "one step of generate_kou_jump given n jumps (j upward) does not have the variance sigma^2 dt + j * mean_up^2 + (n - j) * mean_down^2", d)
+        if rates and any(abs(x - L) > 1e-12 * (1 + L) for x in rates):
+            ctx.violation(f"jump:{model}:intensity", f"the {model} generator draws its jump counts from Poisson(rate) with a rate other than jump_per_year * dt",
+                          {**base, "rates_used": sorted(set(rates)), "lambda_dt": L})
+
+
 def vasicek_long_horizon(ctx: Ctx) -> None:
     """The exact Ornstein-Uhlenbeck transition applied step by step over a LONG horizon (kappa T in the hundreds and beyond 700),
     float64 and float32, on supplied normals: the path equals the recursion x' = theta + (x - theta) e^(-kappa dt) + vola z computed
@@ -386,6 +485,21 @@ def check(ctx: Ctx) -> None:
     badc["s2"] = [badc["s2"][0] * 5, badc["s2"][1] * 4]               # a conditional variance 25 % too large
     cir_moments(probe0, [badc])
     ctx.selftest("a CIR step record with a corrupted conditional variance is rejected", any(v["key"] == "cir:quadratic:variance" for v in probe0.violations))
+    jmp = ctx.tlc("MC_Jump", "MC_Jump.cfg", workers=4)
+    jrecs = [r for r in jmp.records if r.get("rec") == "jump_step"]
+    if jmp.actions.get("Step", [0, 0])[1] == 0 or len(jrecs) < 100 or not any(r["model"] == "kou" for r in jrecs):
+        raise MachineryError("Jump.tla: moment machine not exercised")
+    jump_moments(ctx, jrecs)
+    for r in jrecs:
+        ctx.distinct.add(json.dumps(["jump", r["model"], r["sd2"], r["L"], r["a1"], r["a2"], r["p"]]))
+    ctx.sample(next(r for r in jrecs if r["model"] == "kou"))
+    probe2 = Ctx.__new__(Ctx)
+    probe2.__dict__.update({"_per_key": {}, "violations": [], "findings": [], "known_hits": {}, "evaluations": 0, "distinct": set()})
+    badj = json.loads(json.dumps(next(r for r in jrecs if r["model"] == "kou" and r["L"][0] != 0)))
+    cell = badj["condu"]["2"]["1"] if isinstance(badj["condu"], dict) else badj["condu"][2][1]
+    cell["var"] = [cell["var"][0] * 3, cell["var"][1] * 2]      # a conditional variance 50 % too large
+    jump_moments(probe2, [badj])
+    ctx.selftest("a Kou step record with a corrupted conditional variance is rejected", any(v["key"] == "jump:kou:variance" for v in probe2.violations))
     results = [ctx.tlc("MC_Sim", f"MC_Sim_{c}.cfg", workers=4) for c in CFGS[ctx.tier]]
     recs: List[Dict[str, Any]] = []
     for res in results:
@@ -402,7 +516,7 @@ def check(ctx: Ctx) -> None:
     bad[2]["path"][-1][1] += 1                                   # one Brownian increment too many
     replay(probe, bad)
     ctx.selftest("a specification path with a corrupted Brownian sum is rejected", any(v["key"].startswith("scheme:gbm") for v in probe.violations))
-    ctx.traces_validated = len(recs) + len(crecs) + len(hrecs)
+    ctx.traces_validated = len(recs) + len(crecs) + len(hrecs) + len(jrecs)
     ctx.exhaustive = True
     ctx.rule = ("every parameter point of CIR.tla (theta, kappa, sigma^2, exp(-kappa dt), starting value; both branches) with one real step on quadrature nodes, generate_cir and generate_heston; every parameter point of Heston.tla (rho, kappa, theta, sigma, dt) x 3 starting variances with one real log-price step on supplied normals; "
                 "every sequence of supplied normals z in {-1,0,1,2}^(T-1) (T=4; Merton: z, y in {-1,1}, jump counts in {0,1,4}, T=3) for 6 schemes, "
